@@ -253,6 +253,30 @@ def run(ctx):
                 kdiff += 1
                 ctx.broken.append(('K09 correspondence (registration)', 'case %s: model %s real %s' % (json.dumps(c), got, r['registered'])))
             k += 1
+    # ---- K09 (expansion): the names the real code derives from a selected package = Model.Select.namesUnder over Model.FS.walk of the same tree
+    if getattr(ctx, 'driver_ok', True):
+        import c18
+        sel_dirs = {'pkgk': 'pkgk', 'PATH:pkgk': 'pkgk', 'pkgk.sub': 'pkgk/sub', 'PATH:pkgk/sub': 'pkgk/sub'}
+        seen_layouts = {}
+        for c, r in zip(cases, rex):
+            if 'M' not in r or len(c['prof_mod']) != 1 or c['prof_mod'][0] not in sel_dirs:
+                continue
+            rel = sel_dirs[c['prof_mod'][0]]
+            key = (rel, tuple(sorted(f for f in c['files'] if f.startswith('pkgk/'))))
+            if key not in seen_layouts:
+                tree = {}
+                for f in c['files']:
+                    node = tree
+                    parts = f.split('/')
+                    for comp in parts[:-1]:
+                        node = node.setdefault(comp, {})
+                    node[parts[-1]] = None
+                walked = lean_driver('fs', ['roots ' + ' '.join(c18.encode(tree)), 'walk 0 ' + rel])[-1].split()
+                seen_layouts[key] = lean_driver('select', ['expand %s %s' % (rel.replace('/', '.'), ' '.join(walked))])[-1].split()
+            if sorted(set(r['M'])) != sorted(set(seen_layouts[key])):
+                kdiff += 1
+                ctx.broken.append(('K09 correspondence (expansion of a selected package)', 'selection %s: model %s real %s' % (c['prof_mod'], sorted(set(seen_layouts[key])), sorted(set(r['M'])))))
+                break
     for r in rex + rsy + rrg:
         if 'harness_error' in r:
             ctx.broken.append(('harness', r['harness_error'][-1200:]))
